@@ -6,6 +6,7 @@ use std::panic::{catch_unwind, AssertUnwindSafe};
 
 mod ops_codec;
 mod ops_gossip;
+mod ops_locks;
 mod ops_misc;
 mod ops_parser;
 mod ops_raft;
@@ -33,6 +34,9 @@ fn dispatch(req: &Value) -> Value {
         return v;
     }
     if let Some(v) = ops_misc::handle(op, req) {
+        return v;
+    }
+    if let Some(v) = ops_locks::handle(op, req) {
         return v;
     }
     json!({"error": format!("unknown op {op}")})
